@@ -140,7 +140,14 @@ impl BuildJob<'_> {
         let newstamp = sf.read_stamp(ptx.state().env())?;
         if sf.is_generated()
             && !newstamp.is_missing()
-            && (sf.is_override || Stamp::detect_override(sf.stamp.as_ref().unwrap(), &newstamp))
+            && (sf.is_override
+                || match sf.stamp.as_ref() {
+                    Some(oldstamp) => Stamp::detect_override(oldstamp, &newstamp),
+                    // Marked as generated (by redo-stamp, in a first build that
+                    // was killed before its result was recorded), but redo
+                    // never recorded writing a file here: it is the user's.
+                    None => true,
+                })
         {
             let nice_t = nice(ptx.state().env(), &t).map_err(RedoError::opaque_error)?;
             state::warn_override(&nice_t);
